@@ -1037,7 +1037,14 @@ func c33Pre(op token.Token, k types.BasicKind, a, b *Term) value {
 		if c, ok := small(b); ok && nonneg(a) && !a.IsConst() {
 			r := c33mod(a, c)
 			if !r.IsConst() && r.Op != "ite" {
-				c33Opaque[r] = true // a Go-level remainder: one field with interval [0,c-1]
+				// a Go-level remainder whose quotient did not fold away is kept as one field
+				// with interval [0,c-1]
+				for at := range c33linOf(r).coef {
+					if at.Op == "div" || at.Op == "ite" {
+						c33Opaque[r] = true
+						break
+					}
+				}
 			}
 			return ti(r)
 		}
